@@ -217,9 +217,12 @@ def o_isect(case, T):
     ga, gb, gab = Xa[a_].tolist(), Xb[b_].tolist(), X[ab_].tolist()
     require(ga == gb == gab, "X[a][a']=%r X[b][b']=%r X[ab']=%r for a=%r b=%r", ga, gb, gab, a, b)
     require(gab == common, "ab' selects %r, common index set is %r (a=%r b=%r)", gab, common, a, b)
-    for s in (a_, b_, ab_):
-        require(0 <= s.start <= s.stop, "intersect3 returned non-normalised slice %r", s)
-    require(a_.stop <= len(Xa) and b_.stop <= len(Xb), "a'/b' stick out of a/b: %r %r", a_, b_)
+    if not case.get("reversed"):
+        for s in (a_, b_, ab_):
+            require(0 <= s.start <= s.stop, "intersect3 returned non-normalised slice %r", s)
+        require(a_.stop <= len(Xa) and b_.stop <= len(Xb), "a'/b' stick out of a/b: %r %r", a_, b_)
+    else:
+        T.cls("reversed_operand")
     r = R.roi_intersect(a, b)
     require(X[r].tolist() == common, "roi_intersect(%r,%r)=%r selects %r, expected %r", a, b, r, X[r].tolist(), common)
     require(R.roi_is_empty(r) == (not common), "roi_is_empty(roi_intersect) wrong for %r %r", a, b)
@@ -250,9 +253,15 @@ def e_isect(tier):
     sl = [["s", a, b] for a in range(hi + 1) for b in range(a, hi + 1)]
     sl += [["i", i] for i in range(0, hi)]
     sl += [["s", None, b] for b in range(0, hi + 1, 2)]
+    # reversed slices (stop < start) are legal numpy slices selecting nothing
+    rev = [["s", a, b] for a in range(1, hi + 1) for b in range(0, a) if (a + b) % 2 == 0 or a - b == 1 or tier != "quick"]
     for a in sl:
         for b in sl:
             yield {"a": a, "b": b}
+    for a in rev:
+        for b in sl + rev[::3]:
+            yield {"a": a, "b": b, "reversed": True}
+            yield {"a": b, "b": a, "reversed": True}
 
 
 # --------------------------------------------------------------------- pad / scale
